@@ -107,7 +107,8 @@ def gen_plan(seed, tier, index):
             if y < 0.08:
                 op['fault'] = {'kind': 'lm_exc', 'where': r.choice(['advance_h0', 'log_probs', 'add_line_end',
                                                                     'initial_h_from_line', 'initial_h']),
-                               'nth': r.randint(0, 6)}
+                               # small = inside the first line; large = a later (often the last) line of the page
+                               'nth': r.randint(0, 6) if r.random() < 0.5 else r.randint(7, 150)}
             elif y < 0.14:
                 op['fault'] = {'kind': 'missing_logits', 'line': r.randint(0, 3)}
             ops.append(op)
